@@ -23,7 +23,7 @@ func init() {
 		MinNontriv: 2 * 289,
 		Cases: func(tier string) int {
 			if tier == "thorough" {
-				return 8 + 6000
+				return 8 + 60000
 			}
 			return 8 + 600
 		},
